@@ -110,7 +110,7 @@ Genuine(o) == o.alt = "none" /\ NodeSane(o)
 
 \* the shape the featured signature(s) of the run were ground to ("any": left to the nonce)
 CompClasses == {"h32", "l32", "b31h", "b31l", "b30", "any"}
-ShapeClasses == {a \o "/" \o b : a \in CompClasses, b \in CompClasses \ {"b30"}}
+ShapeClasses == {a \o "/" \o b : a \in CompClasses, b \in CompClasses}
 WellFormedP(o) ==
     /\ o.plat \in {"ledger", "sgx"}
     /\ o.hist \in {"single", "reattest", "inplace", "sameout", "reuse0", "two"}
